@@ -915,6 +915,40 @@ theorem src_array_swap_is_model (native : Order) (a : OrderArg) :
   unfold exportCells
   cases native <;> cases (resolveOrder _ a.order) <;> rfl
 
+/-- **C18.49** `chunks.array` of the source, statement by statement — the working array `array.array(dfmt, [0] * size)` as a
+list of `size` cells (machine representation of each item), `chunk[idx] = el` as `set` after the array module's
+conversion (which may raise), the `idx` bookkeeping, the `export()` closure (`tobytes`, after a `byteswap` of a copy when
+`swap`), the fill loop with its `yield export()` / `idx = 0`, the end-of-input test, the pad loop over
+`xrange(idx, size)` and the last partial chunk — IS the model's array strategy, for every machine order, spelling of the
+byte order, format, size, pad value and input (no side condition).  Every theorem above about `chunksArrayPy`
+(`chunksArray`, `aLoop`, `aFill`, `exportCells`) is from here on a theorem about the regenerated definition. -/
+theorem src_chunks_array_is_model (native : Order) (a : OrderArg) (fmt : Fmt) (size : Nat) (pad : PVal) (xs : List PVal) :
+    ALV.Gen.C18.chunksArray native a fmt size pad xs = chunksArrayPy native a fmt size pad xs :=
+  gen_chunksArray_eq native a fmt size pad xs (src_array_swap_is_model native a).1
+
+/-- the pieces: `export()` is `exportCells`, the pad loop is `aFill` -/
+theorem src_array_export_is_model (native : Order) (a : OrderArg) (cells : List Bytes) :
+    ALV.Gen.C18.arrayExport native a cells = exportCells native (resolveOrder native a.order) cells :=
+  gen_arrayExport_eq native a cells (src_array_swap_is_model native a).1
+
+/-- **C18.50** transfer of C18.32 to the regenerated code: what the source's `chunks.array` yields (and where it stops,
+with which failure) is what the source's `chunks.struct` yields, for every format of the table, every spelling of the byte
+order, machine order, size ≥ 1, pad value and sequence of Python numbers, provided no finite double overflows the 32-bit
+float format (void for every format other than f). -/
+theorem src_chunks_array_eq_src_chunks_struct (native : Order) (a : OrderArg) (fmt : Fmt) (size : Nat) (hs : 0 < size)
+    (pad : PVal) (xs : List PVal)
+    (hf : fmt = .f → ∀ x ∈ pad :: xs, leElem true .f x = leElem false .f x) :
+    (ALV.Gen.C18.chunksArray native a fmt size pad xs).someErr = ALV.Gen.C18.chunksStruct native a fmt size pad xs := by
+  rw [src_chunks_array_is_model, src_chunks_struct_is_model native a fmt size hs,
+    chunks_table_struct_eq_array native a fmt size hs pad xs hf]
+
+/-- non-vacuity: big-endian on a little-endian machine (the swapping branch of `export()`), a full chunk and a padded one;
+a value outside the format stops both strategies after the first chunk -/
+example : (ALV.Gen.C18.chunksArray .little .gt .h 2 (.int 7) [.int 1, .int 2, .int 3])
+    = ⟨[[0, 1, 0, 2], [0, 3, 0, 7]], none⟩ := by rfl
+example : (ALV.Gen.C18.chunksArray .little .lt .h 2 (.int 0) [.int 1, .int 2, .int 32768, .int 5])
+    = ⟨[[1, 0, 2, 0]], some .range⟩ := by rfl
+
 
 end ALV.Props.C18
 
